@@ -9,6 +9,7 @@ func init() {
 		Run: func(c *Ctx) {
 			ruleJSONEscape(c)
 			ruleJSONNumbers(c)
+			ruleJSONEnd(c)
 			ruleJSONReset(c)
 			ruleJSONProtocol(c)
 			ruleJSONRawString(c)
